@@ -1,5 +1,6 @@
 import Driver.Manager
 import Driver.Stream
+import Driver.Sym
 /-!
   `tvdrv`: one line in, one line out. The first token selects the model.
   Unknown or malformed lines answer `bad-op` (never a default).
@@ -12,6 +13,10 @@ structure DState where
 
 def dispatch (st : DState) (line : String) : DState × String :=
   let toks := (line.trimAscii.toString.splitOn " ").filter (· ≠ "")
+  -- a leading "!" marks a property-level line (the model side is the independent reference)
+  let toks := match toks with
+    | t :: rest => (if t.startsWith "!" then (t.drop 1).toString else t) :: rest
+    | [] => []
   match toks with
   | "M" :: rest =>
     match Driver.Mgr.handle st.mgr rest with
@@ -20,6 +25,10 @@ def dispatch (st : DState) (line : String) : DState × String :=
   | "S" :: rest =>
     match Driver.Strm.handle st.strm rest with
     | some (m, out) => ({ st with strm := m }, out)
+    | none => (st, "bad-op")
+  | "X" :: rest =>
+    match Driver.Sym.handle rest with
+    | some out => (st, out)
     | none => (st, "bad-op")
   | _ => (st, "bad-op")
 
